@@ -810,6 +810,15 @@ func extraC07(col *Collector, r *RNG, tier string) {
 				}
 			}
 		}
+		if i == 0 || i == 2 {
+			// binlog_checksum changed at run time on a quiet master: file 1 under one setting, file 2 under the other and
+			// holding nothing but the ROTATE to file 3 (its format description differs from file 1's in the checksum byte
+			// only), then transactions in file 3
+			b := bulkHistory(r, allCfgs[(i*3+r.Intn(2)*4)%len(allCfgs)], 2)
+			b.crcmix = true
+			b.units = []hUnit{b.units[0], {kind: "rot", file: "bin.000002"}, {kind: "rot", file: "bin.000003"}, b.units[1], b.units[2]}
+			h = b
+		}
 		line := h.line(posStr(firstFile, 4))
 		ans, err := theDriver.Ask(line)
 		if err != nil {
@@ -822,6 +831,9 @@ func extraC07(col *Collector, r *RNG, tier string) {
 		id := uint32(r.U64()) | 1
 		s, mp := newStreamer(m, h, id, firstFile, 4)
 		k := r.Intn(len(txs))
+		if i == 0 || i == 2 {
+			k = len(txs) - 1
+		}
 		opts := defaultOpts()
 		opts.failAt = k
 		res1 := runAttempt(s, m, h, mp, opts)
